@@ -136,8 +136,22 @@ def direction1(ck, case):
     las.points = laspy.ScaleAwarePointRecord.zeros(n, header=las.header)
     for name, (t, pats) in case["fields"].items():
         las[name] = to_array(pats, t)
+    how = ck.rng.choice(["whole", "whole", "mask+list", "list+int"]) if n >= 2 else "whole"
+    ck.count("subfields_assigned:" + how)
     for sname, vals in case["subs"].items():
-        las[sname] = np.array(vals, dtype="u1")
+        v = np.array(vals, dtype="u1")
+        if how == "whole":
+            las[sname] = v
+        elif how == "mask+list":
+            m = np.zeros(n, dtype=bool)
+            m[::2] = True
+            las[sname][m] = v[m]
+            rest = [i for i in range(n) if not m[i]]
+            las[sname][rest] = v[rest]
+        else:
+            idx = np.arange(n - 1)
+            las[sname][idx] = v[idx]
+            las[sname][n - 1] = int(v[n - 1])
     for name, (tid, base, k, vals) in case["extras"].items():
         arr = to_array([p for row in vals for p in row], base)
         las[name] = arr if k == 1 else arr.reshape(n, k)
@@ -355,6 +369,29 @@ def check_laspy_presents(ck, case, data, inp, what):
         got = arr.view("u" + base[1:]).reshape(n, k).tolist()
         if got != vals:
             ck.fail(f"{what}: extra dimension {name} (type {tid}) presented as {got[:2]} expected {vals[:2]}", dict(inp, dim=name))
+    # the same file presented chunk by chunk, every chunk kept until the last one was read
+    if n >= 2:
+        k = max(1, n // 3)
+        try:
+            with laspy.open(io.BytesIO(data)) as rd:
+                chunks = list(rd.chunk_iterator(k))
+        except Exception as e:
+            ck.fail(f"{what}: reading in chunks of {k} raised {type(e).__name__}: {e}", inp)
+            return
+        ck.count("presented_in_kept_chunks")
+        if sum(len(c) for c in chunks) != n:
+            ck.fail(f"{what}: chunks of {k} hold {sum(len(c) for c in chunks)} points, the file {n}", inp)
+            return
+        for name, (t, pats) in case["fields"].items():
+            got = [x for c in chunks for x in np.ascontiguousarray(c[name]).view("u" + t[1:]).tolist()]
+            if got != pats:
+                ck.fail(f"{what}: read in chunks of {k} (all kept): dimension {name} presented as {got[:4]} expected patterns {pats[:4]}", dict(inp, dim=name))
+                return
+        for sname, vals in case["subs"].items():
+            got = [x for c in chunks for x in np.array(c[sname]).tolist()]
+            if got != vals:
+                ck.fail(f"{what}: read in chunks of {k} (all kept): sub-field {sname} presented as {got} expected {vals}", dict(inp, dim=sname))
+                return
 
 
 def run(ck):
